@@ -367,6 +367,7 @@ func c11PreSliceLen(k *gctx) {
 	}
 	c.Floor("P.pre.slicelen", "call sites of makeSliceLengthEqEq (iterate length; constant slice bounds)", nsites, 2)
 
+	c11DecimalOnly(k)
 	// The parser validates iterate lengths.
 	if pf := k.flow("P.pre.iterlen", "lang/parse", "parser", "parseIterateBlock"); pf != nil {
 		pi := pf.F.Info()
@@ -399,6 +400,189 @@ func c11PreSliceLen(k *gctx) {
 				})
 		}
 	}
+}
+
+// c11DecimalOnly (P.pre.decimal): asSmallPositiveInt256 returns non-zero only
+// for a string of ASCII decimal digits. check.makeSliceLengthEqEq converts an
+// iterate length with a base-10 conversion and panics when that fails; the only
+// thing that keeps `length: 0x4` or `length: 1_6` (both numeric literals for the
+// tokenizer) away from it is this function (independently seeded change C11-4
+// replaced the scanner by strconv.ParseInt(s, 0, 32)).
+// Accepted forms: (a) a base-10 library conversion (strconv.Atoi, ParseInt /
+// ParseUint with the constant base 10) whose error leads to `return 0`;
+// (b) the hand-written scanner: every byte taken off the front of s is first
+// tested to lie in '0'..'9' (otherwise return 0), and a non-zero return is
+// reached only through the exit of the loop that runs while len(s) > 0.
+func c11DecimalOnly(k *gctx) {
+	c := k.c
+	fl := k.flow("P.pre.decimal", "lang/parse", "", "asSmallPositiveInt256")
+	if fl == nil {
+		return
+	}
+	info := fl.F.Info()
+	claim := "asSmallPositiveInt256 accepts only strings of ASCII decimal digits (the checker converts an iterate length with a base-10 conversion and panics on anything else)"
+	// (a) library conversion
+	convOK, convBad := 0, ""
+	ast.Inspect(fl.F.Decl.Body, func(n ast.Node) bool {
+		call, ok := n.(*ast.CallExpr)
+		if !ok {
+			return true
+		}
+		fn := core.Callee(info, call)
+		if fn == nil || fn.Pkg() == nil {
+			return true
+		}
+		switch fn.FullName() {
+		case "strconv.Atoi":
+			convOK++
+		case "strconv.ParseInt", "strconv.ParseUint":
+			if v, isC := core.ConstInt64(info, call.Args[1]); isC && v == 10 {
+				convOK++
+			} else {
+				convBad = k.g.Pos(call.Pos()) + ": `" + core.Src(k.g.Fset, call) + "`: the base is not the constant 10 (base 0 also accepts 0x…, 0b…, 0o… and digit-grouping underscores)"
+			}
+		case "(*math/big.Int).SetString":
+			if v, isC := core.ConstInt64(info, call.Args[1]); isC && v == 10 {
+				convOK++
+			} else {
+				convBad = k.g.Pos(call.Pos()) + ": `" + core.Src(k.g.Fset, call) + "`: the base is not the constant 10"
+			}
+		}
+		return true
+	})
+	if convBad != "" {
+		c.Fail("P.pre.decimal", fl.F.Name(), claim, 1, convBad)
+		return
+	}
+	if convOK > 0 {
+		c.Pass("P.pre.decimal", fl.F.Name(), claim, convOK, "base-10 library conversion")
+		return
+	}
+	// (b) hand-written scanner over a string local s
+	var sObj types.Object
+	for o := range fl.Defs() {
+		if v, ok := o.(*types.Var); ok && types.Identical(v.Type(), types.Typ[types.String]) {
+			sObj = o
+		}
+	}
+	if sObj == nil {
+		c.Undecided("P.pre.decimal", fl.F.Name(), claim, "neither a base-10 conversion nor a string local to scan was found")
+		return
+	}
+	isS0 := func(e ast.Expr) bool {
+		ie, ok := ast.Unparen(e).(*ast.IndexExpr)
+		if !ok || fl.Obj(ie.X) != sObj {
+			return false
+		}
+		v, isC := core.ConstInt64(info, ie.Index)
+		return isC && v == 0
+	}
+	// digitEdge: on this edge s[0] is known to lie in '0'..'9'
+	digitEdge := func(cond ast.Expr, ci *core.CondInfo, taken bool) bool {
+		if taken {
+			return false
+		}
+		lo, hi := false, false
+		for _, at := range flattenOr(cond) {
+			be, ok := ast.Unparen(at).(*ast.BinaryExpr)
+			if !ok {
+				continue
+			}
+			x, y, op := be.X, be.Y, be.Op
+			if op == token.GTR || op == token.GEQ {
+				x, y = y, x
+				if op == token.GTR {
+					op = token.LSS
+				} else {
+					op = token.LEQ
+				}
+			}
+			// now x op y with op in {<, <=}
+			if op != token.LSS && op != token.LEQ {
+				continue
+			}
+			adj := int64(0)
+			if op == token.LEQ {
+				adj = 1
+			}
+			if isS0(x) { // s[0] < C  ⇒ on the false edge s[0] >= C (or > C-… for <=)
+				if v, isC := core.ConstInt64(info, y); isC && v+adj >= '0' {
+					lo = true
+				}
+			}
+			if isS0(y) { // C < s[0] ⇒ on the false edge s[0] <= C
+				if v, isC := core.ConstInt64(info, x); isC && v-adj <= '9' {
+					hi = true
+				}
+			}
+		}
+		return lo && hi
+	}
+	// every front re-slice `… s[1:]` is preceded by a digit test of s[0]
+	isAdvance := func(n ast.Node) bool {
+		found := false
+		if _, isFor := n.(*ast.ForStmt); isFor {
+			return false
+		}
+		ast.Inspect(n, func(m ast.Node) bool {
+			se, ok := m.(*ast.SliceExpr)
+			if ok && fl.Obj(se.X) == sObj && se.Low != nil && se.High == nil {
+				if v, isC := core.ConstInt64(info, se.Low); isC && v == 1 {
+					found = true
+				}
+			}
+			return !found
+		})
+		return found
+	}
+	// a fresh s[0] needs a fresh test: after an advance the event is forgotten, which
+	// the engine models by starting a new query at each advance.
+	ok1 := k.mustPass("P.pre.decimal.byte", fl.F.Name()+"[s = s[1:]]", "every byte taken off the front of the literal was tested to be an ASCII decimal digit first", fl, core.Query{
+		Exit:   isAdvance,
+		Events: []core.Event{{Edge: digitEdge}},
+	})
+	// after an advance, the next advance again needs its own test
+	ok2 := k.mustPass("P.pre.decimal.next", fl.F.Name()+"[s = s[1:] … s = s[1:]]", "between two bytes taken off the front, the second one is tested as well", fl, core.Query{
+		Start:  isAdvance,
+		Exit:   isAdvance,
+		Events: []core.Event{{Edge: digitEdge}},
+	})
+	// a non-zero result is returned only once the whole string was consumed
+	lenEmpty := func(cond ast.Expr, ci *core.CondInfo, taken bool) bool {
+		be, ok := ast.Unparen(cond).(*ast.BinaryExpr)
+		if !ok {
+			return false
+		}
+		isLen := func(e ast.Expr) bool {
+			call, ok := ast.Unparen(e).(*ast.CallExpr)
+			if !ok || len(call.Args) != 1 {
+				return false
+			}
+			id, ok := call.Fun.(*ast.Ident)
+			return ok && id.Name == "len" && fl.Obj(call.Args[0]) == sObj
+		}
+		zero := func(e ast.Expr) bool { v, isC := core.ConstInt64(info, e); return isC && v == 0 }
+		switch {
+		case be.Op == token.GTR && isLen(be.X) && zero(be.Y), be.Op == token.LSS && zero(be.X) && isLen(be.Y), be.Op == token.NEQ && isLen(be.X) && zero(be.Y):
+			return !taken
+		case be.Op == token.EQL && isLen(be.X) && zero(be.Y):
+			return taken
+		}
+		return false
+	}
+	ok3 := k.mustPass("P.pre.decimal.whole", fl.F.Name()+"[return n]", "a non-zero value is returned only after the scanning loop ran until the string was empty", fl, core.Query{
+		Start: isAdvance,
+		Exit: func(n ast.Node) bool {
+			r, ok := n.(*ast.ReturnStmt)
+			if !ok || len(r.Results) != 1 {
+				return false
+			}
+			v, isC := core.ConstInt64(info, r.Results[0])
+			return !(isC && v == 0)
+		},
+		Events: []core.Event{{Edge: lenEmpty}},
+	})
+	_, _, _ = ok1, ok2, ok3
 }
 
 // ---------------------------------------------------------------------------
